@@ -549,8 +549,9 @@ def extcase_rule(run, rid, p, funcs, text, triage_tbl=None):
                     continue
                 n += 1
                 key = '%s::%s::%s' % (f.rel, f.short, norm(x))
-                if not st and key in triage_tbl:
-                    run.note(rid, 'case-sensitive by design: %s (%s)' % (key, triage_tbl[key]), fn=f, node=x)
+                fkey = '%s::%s' % (f.rel, f.short)
+                if not st and (key in triage_tbl or fkey in triage_tbl):
+                    run.note(rid, 'case-sensitive by design: %s (%s)' % (key, triage_tbl.get(key) or triage_tbl[fkey]), fn=f, node=x)
                     continue
                 run.ob(rid, key, st, 'extension test %s is made on %s' % (
                     norm(x)[:70], 'the lower-cased extension' if st else 'the extension as spelled in the file name, so '
